@@ -2,6 +2,7 @@
 import json
 import os
 import random
+import re
 import sys
 import time
 
@@ -68,6 +69,23 @@ def run_property(P, tier, seed, replay=None):
         impl, model, spec = kv.run_cases(cases, bins, drv, impl_shards=getattr(P, "IMPL_SHARDS", kv.NPROC),
                                          per_shard=getattr(P, "PER_SHARD", 50))
 
+    # harness trouble (the implementation side could not be executed: bind/connect failure, start-up or read timeout under
+    # load ...) is not an outcome of the code: such cases are run again, up to two more times and with less parallelism; what
+    # still cannot be executed is counted (and named) as not_executed, never compared, and fails the run when it is too much
+    trouble = getattr(P, "harness_trouble", lambda c, i: re.match(r"\(L \(N 93\)|\(L \(N 96\) \((N|B) ", i) is not None)
+    retried = 0
+    if harness_error is None and not replay:
+        for attempt in (1, 2):
+            again = [c for c in cases if c.id in impl and trouble(c, impl[c.id])]
+            if not again:
+                break
+            retried = max(retried, len(again))
+            for prof, binary in bins.items():
+                lines = ["%s %s %s" % (c.id, c.comp, kv.xtext(c.x)) for c in again if c.profile == prof]
+                impl.update(kv._run_sharded(binary, lines, shards=4, timeout=900, per_shard=8))
+    troubled = [c for c in cases if c.id in impl and trouble(c, impl[c.id])]
+    troubled_ids = {c.id for c in troubled}
+
     compare = getattr(P, "compare", lambda c, i, m: i == m)
     spec_ok = getattr(P, "spec_ok", lambda c, i, s: i == s)
     classify = getattr(P, "classify", lambda c, i: None)
@@ -76,6 +94,8 @@ def run_property(P, tier, seed, replay=None):
     known = kv.load_known(prop)
 
     mismatches, spec_fail, not_executed, out_of_domain = [], [], 0, 0
+    not_executed_cases = []
+    ood_by_comp, n_by_comp = {}, {}
     sigs = set()
     dist = {}
     for c in cases:
@@ -83,11 +103,15 @@ def run_property(P, tier, seed, replay=None):
         m = model.get(c.id)
         k = c.meta.get("kind", "-")
         dist[k] = dist.get(k, 0) + 1
-        if i is None or m is None:
+        n_by_comp[c.comp] = n_by_comp.get(c.comp, 0) + 1
+        if i is None or m is None or c.id in troubled_ids:
             not_executed += 1
+            not_executed_cases.append((c, "no implementation output" if i is None else "no model output" if m is None
+                                       else "harness trouble after 3 attempts: " + i[:120]))
             continue
         if ood(c, i):
             out_of_domain += 1
+            ood_by_comp[c.comp] = ood_by_comp.get(c.comp, 0) + 1
             continue
         sig = P.signature(c, m) if hasattr(P, "signature") else m[:24]
         if sig is not None:
@@ -101,7 +125,7 @@ def run_property(P, tier, seed, replay=None):
     if hasattr(P, "extra_oracle") and harness_error is None:
         for c in cases:
             i = impl.get(c.id)
-            if i is not None and not ood(c, i):
+            if i is not None and c.id not in troubled_ids and (not ood(c, i) or getattr(P, "ORACLE_ON_OOD", False)):
                 why = P.extra_oracle(c, i)
                 if why:
                     c.meta["why"] = why
@@ -163,9 +187,21 @@ def run_property(P, tier, seed, replay=None):
             path = kv.write_replay(prop, replay_payload(mismatches[:5], "; ".join(reason),
                                                         {"broken_theorems": {n: results[n]["why"] for n in broken if n in results}}))
             violations.append((path, " no-failing-input-found"))
-    if cases and harness_error is None and not_executed > max(2, len(cases) // 50):
-        notes.append("harness error: %d of %d cases produced no output" % (not_executed, len(cases)))
-        path = kv.write_replay(prop, {"property": prop, "reason": "correspondence broken: %d of %d cases could not be executed" % (not_executed, len(cases))})
+    # a component none of whose cases is comparable any more is no longer tied to the code
+    dead = sorted(comp for comp, n in n_by_comp.items()
+                  if n >= 5 and ood_by_comp.get(comp, 0) == n and comp not in getattr(P, "OOD_ONLY_COMPONENTS", ()))
+    if cases and harness_error is None and (not_executed > max(2, len(cases) // 50) or dead):
+        why = []
+        if not_executed > max(2, len(cases) // 50):
+            why.append("%d of %d cases could not be executed (first: %s)" % (
+                not_executed, len(cases), "; ".join("%s %s: %s" % (c.id, c.comp, w) for c, w in not_executed_cases[:3])))
+        if dead:
+            why.append("every case of component(s) %s is out of domain on the implementation side" % ", ".join(dead))
+        notes.append("harness error: " + "; ".join(why))
+        path = kv.write_replay(prop, {"property": prop, "reason": "correspondence broken: " + "; ".join(why),
+                                      "cases": [{"comp": c.comp, "x": kv.xtext(c.x), "input": kv.pretty(c.x, 2000), "profile": c.profile,
+                                                 "spec": c.spec, "implementation": impl.get(c.id), "model": model.get(c.id)}
+                                                for c, _ in not_executed_cases[:5]]})
         if not violations:
             violations.append((path, " no-failing-input-found"))
 
@@ -197,6 +233,9 @@ def run_property(P, tier, seed, replay=None):
         "distribution": dist,
         "out_of_domain": out_of_domain,
         "not_executed": not_executed,
+        "not_executed_cases": [{"id": c.id, "component": c.comp, "kind": c.meta.get("kind"), "why": w} for c, w in not_executed_cases[:20]],
+        "harness_trouble_retried": retried,
+        "out_of_domain_by_component": {k: "%d of %d" % (v, n_by_comp[k]) for k, v in sorted(ood_by_comp.items())},
         "mismatches_model_vs_implementation": len(mismatches),
         "spec_failures_on_implementation_output": len(spec_fail),
         "kernel_rechecked": max(nchk, 0),
